@@ -2,7 +2,7 @@
 Require Import Cherab.Common.Qx.
 Require Import Cherab.Model.C11_Sart Cherab.Model.C11_Round.
 Require Import Cherab.Proofs.C11_Sart.
-From Coq Require Import Qabs Lqa.
+From Coq Require Import Qpower Qround Qabs Lqa.
 Open Scope Q_scope.
 
 (* the replayed rule IS the model's stopping rule: with exact subtraction (no rounding) every convergence list
@@ -43,4 +43,127 @@ Proof.
     destruct (first_below tol 1 (abs_diffs no_rounding (conv W b (step x0)) cs')) eqn:EF2.
     + apply Nat.eqb_eq. cbn [length]. lia.
     + apply Nat.eqb_eq. cbn [length]. lia.
+Qed.
+
+(* ---- error bounds of the binary64 rounding model ---- *)
+
+(* helper facts about powers of two (as in Proofs/C16_Round.v, re-proved here for this rounding model) *)
+Lemma pow2_pos z : 0 < pow2 z.
+Proof. unfold pow2. apply Qpower_0_lt. reflexivity. Qed.
+Lemma two_nz : ~ 2 == 0.
+Proof. intros H. discriminate H. Qed.
+Lemma pow2_plus a b : pow2 (a + b) == pow2 a * pow2 b.
+Proof. unfold pow2. apply Qpower_plus, two_nz. Qed.
+Lemma pow2_Z k : (0 <= k)%Z -> inject_Z (2 ^ k) == pow2 k.
+Proof. intros H. unfold pow2. rewrite (Zpower_Qpower 2 k H). reflexivity. Qed.
+
+(* nearest integer, ties to even: within 1/2 *)
+Lemma round_int_even_bounds r : r - (1#2) <= inject_Z (round_int_even r) /\ inject_Z (round_int_even r) <= r + (1#2).
+Proof.
+  unfold round_int_even.
+  pose proof (Qfloor_le r) as H1. pose proof (Qlt_floor r) as H2.
+  rewrite inject_Z_plus in H2. change (inject_Z 1) with 1 in H2.
+  destruct (Qle_bool (r - inject_Z (Qfloor r)) (1#2)) eqn:E.
+  - apply Qle_bool_iff in E. destruct (Qeq_bool (r - inject_Z (Qfloor r)) (1#2)) eqn:E2.
+    + apply Qeq_bool_iff in E2. destruct (Z.even (Qfloor r)); [|rewrite inject_Z_plus; change (inject_Z 1) with 1]; lra.
+    + lra.
+  - assert ((1#2) < r - inject_Z (Qfloor r)).
+    { apply Qnot_le_lt. intro K. apply Qle_bool_iff in K. congruence. }
+    rewrite inject_Z_plus; change (inject_Z 1) with 1. lra.
+Qed.
+
+(* 2^(ilog2 q) <= |q| *)
+Lemma ilog2_lower q : ~ q == 0 -> pow2 (ilog2 q) <= Qabs q.
+Proof.
+  intro Hq. unfold ilog2.
+  set (e0 := (Z.log2 (Z.abs (Qnum q)) - Z.log2 (Zpos (Qden q)))%Z).
+  destruct (Qle_bool (pow2 e0) (Qabs q)) eqn:E; [apply Qle_bool_iff; exact E|].
+  destruct q as [n d]. cbn [Qnum Qden] in *.
+  assert (Hn : (0 < Z.abs n)%Z).
+  { destruct (Z.eq_dec n 0) as [->|K]; [exfalso; apply Hq; reflexivity | lia]. }
+  destruct (Z.log2_spec (Z.abs n) Hn) as [Hn1 _].
+  destruct (Z.log2_spec (Zpos d) (Pos2Z.is_pos d)) as [_ Hd2].
+  pose proof (Z.log2_nonneg (Z.abs n)) as Hln. pose proof (Z.log2_nonneg (Zpos d)) as Hld.
+  set (ln := Z.log2 (Z.abs n)) in *. set (ld := Z.log2 (Zpos d)) in *.
+  replace (e0 - 1)%Z with (ln + - Z.succ ld)%Z by (unfold e0; lia).
+  rewrite pow2_plus.
+  assert (HA : Qabs (n # d) == inject_Z (Z.abs n) / inject_Z (Zpos d)).
+  { unfold Qabs. rewrite (Qmake_Qdiv (Z.abs n) d). reflexivity. }
+  rewrite HA.
+  assert (Hinv : pow2 (- Z.succ ld) == / pow2 (Z.succ ld)) by (unfold pow2; apply Qpower_opp).
+  rewrite Hinv. rewrite <- (pow2_Z ln Hln), <- (pow2_Z (Z.succ ld)) by lia.
+  assert (0 < inject_Z (2 ^ Z.succ ld)) as HD by (rewrite pow2_Z by lia; apply pow2_pos).
+  assert (0 < inject_Z (Zpos d)) as Hdq by reflexivity.
+  assert (inject_Z (2 ^ ln) <= inject_Z (Z.abs n)) as Hnq by (rewrite <- Zle_Qle; exact Hn1).
+  assert (inject_Z (Zpos d) < inject_Z (2 ^ Z.succ ld)) as Hdq2 by (rewrite <- Zlt_Qlt; exact Hd2).
+  assert (0 < inject_Z (2 ^ ln)) as HN by (rewrite pow2_Z by lia; apply pow2_pos).
+  apply Qle_shift_div_l; [exact Hdq|].
+  apply Qle_trans with (inject_Z (2 ^ ln)); [|exact Hnq].
+  assert (K : inject_Z (2 ^ ln) * / inject_Z (2 ^ Z.succ ld) * inject_Z (Zpos d)
+              == inject_Z (2 ^ ln) * (inject_Z (Zpos d) / inject_Z (2 ^ Z.succ ld))) by (field; lra).
+  rewrite K. rewrite <- (Qmult_1_r (inject_Z (2 ^ ln))) at 2.
+  apply Qmult_le_l; [exact HN|]. apply Qle_shift_div_r; [exact HD|]. lra.
+Qed.
+
+Definition u53 : Q := pow2 (-53).
+
+(* the rounded value in terms of the scaled significand *)
+Lemma round53_value q : ~ q == 0 ->
+  round53 q == inject_Z (round_int_even (q / pow2 (quantum q))) * pow2 (quantum q).
+Proof.
+  intro Hq. unfold round53. destruct (Qeq_bool q 0) eqn:E; [apply Qeq_bool_iff in E; contradiction|].
+  apply Qred_correct.
+Qed.
+
+(* ABSOLUTE error: at most half a quantum, in the normal AND in the subnormal range *)
+Lemma round53_abs_error q : Qabs (round53 q - q) <= (1#2) * pow2 (quantum q).
+Proof.
+  destruct (Qeq_dec q 0) as [Z|Hq].
+  - unfold round53. assert (Qeq_bool q 0 = true) as -> by (apply Qeq_bool_iff; exact Z).
+    pose proof (pow2_pos (quantum q)). setoid_replace (0 - q) with 0 by (rewrite Z; ring). cbn [Qabs Z.abs Qnum Qden]. lra.
+  - rewrite (round53_value q Hq). pose proof (pow2_pos (quantum q)) as Hp.
+    set (p := pow2 (quantum q)) in *. set (r := q / p).
+    assert (Eq : q == r * p) by (unfold r; field; lra).
+    destruct (round_int_even_bounds r) as [B1 B2]. fold r. set (m := inject_Z (round_int_even r)) in *.
+    setoid_replace (m * p - q) with ((m - r) * p) by (rewrite Eq at 1; ring).
+    apply Qabs_Qle_condition. split; nra.
+Qed.
+
+(* RELATIVE error 2^-53 in the normal range (|q| >= 2^-1022, i.e. quantum above the subnormal floor) *)
+Lemma round53_rel_error q : (-1074 <= ilog2 q - 52)%Z -> Qabs (round53 q - q) <= u53 * Qabs q.
+Proof.
+  intro Hn. destruct (Qeq_dec q 0) as [Z|Hq].
+  - unfold round53. assert (Qeq_bool q 0 = true) as -> by (apply Qeq_bool_iff; exact Z).
+    setoid_replace (0 - q) with 0 by (rewrite Z; ring). cbn [Qabs Z.abs Qnum Qden].
+    pose proof (Qabs_nonneg q). assert (0 < u53) by (apply pow2_pos). nra.
+  - pose proof (round53_abs_error q) as A. pose proof (ilog2_lower q Hq) as L.
+    assert (Eq : quantum q = (ilog2 q + -52)%Z) by (unfold quantum; lia).
+    rewrite Eq, pow2_plus in A.
+    assert (E53 : u53 == (1#2) * pow2 (-52)) by reflexivity.
+    rewrite E53. pose proof (pow2_pos (-52)). nra.
+Qed.
+
+(* subnormal range: absolute error at most 2^-1075 *)
+Lemma round53_subnormal_error q : (ilog2 q - 52 < -1074)%Z -> Qabs (round53 q - q) <= pow2 (-1075).
+Proof.
+  intro Hs. pose proof (round53_abs_error q) as A.
+  assert (Eq : quantum q = (-1074)%Z) by (unfold quantum; lia). rewrite Eq in A.
+  assert (E : (1#2) * pow2 (-1074) == pow2 (-1075)).
+  { replace (-1075)%Z with (-1 + -1074)%Z by lia. rewrite pow2_plus. reflexivity. }
+  rewrite <- E. exact A.
+Qed.
+
+(* the floating-point stopping decision equals the exact one whenever the exact difference is further than one
+   rounding error from the tolerance: outside that margin the implementation's rule IS the model's rule *)
+Lemma stop_decision_robust d tol : 0 <= d -> (-1074 <= ilog2 d - 52)%Z -> u53 * d < Qabs (d - tol) ->
+  Qle_bool tol (round53 d) = Qle_bool tol d.
+Proof.
+  intros Hd Hn Hm. pose proof (round53_rel_error d Hn) as R. rewrite (Qabs_pos d Hd) in R.
+  apply Qabs_Qle_condition in R. destruct R as [R1 R2].
+  destruct (Qle_bool tol d) eqn:E.
+  - apply Qle_bool_iff in E. apply Qle_bool_iff.
+    rewrite Qabs_pos in Hm by lra. lra.
+  - assert (d < tol). { apply Qnot_le_lt. intro K. apply Qle_bool_iff in K. congruence. }
+    rewrite Qabs_neg in Hm by lra.
+    destruct (Qle_bool tol (round53 d)) eqn:E2; [|reflexivity]. apply Qle_bool_iff in E2. exfalso. lra.
 Qed.
